@@ -16,6 +16,12 @@ from ..util import automat_state
 
 ID = "C12"
 PROP_MODULES = ["WV.Props.C12"]
+# translation validation of the L2 method bodies (tools/extract.py::extract_pyir_l2 -> WV/Gen/PyIRL2.lean, interpreter
+# WV/Model/PyIR.lean): part of the check as soon as the module is installed (agents/deepL2_integration.md)
+import os as _os
+if _os.path.exists(_os.path.join(_os.path.dirname(_os.path.dirname(_os.path.dirname(_os.path.abspath(__file__)))),
+                                 "lean", "WV", "Props", "PyIRL2_C12.lean")):
+    PROP_MODULES.append("WV.Props.PyIRL2_C12")
 TRUSTED = ["Noise NNpsk0 (noiseprotocol is not installed; an ideal nonce-indexed AEAD interface in Lean, a toy AEAD in the harness)",
            "UTF-8 codec (validity predicate abstract in the theorems)",
            "Noise handshake verification (noise.read_message) is an abstract predicate handshakeOK in the theorems",
